@@ -512,6 +512,30 @@ def rule_prop(ctx) -> RuleResult:
 COPY_CALLS = {"_super_copy", "copy"}
 
 
+def _link_sinks(fl, sn, links) -> list:
+    """(target, value, node) of the statements that link ANOTHER entity: `<x>.<link> = v` / setattr(<x>, <link name, also computed from
+    the link table>, v), x not self."""
+    def not_self(e) -> bool:
+        return not any(is_self(a, sn) for a in fl.origins(e))
+
+    sinks = []
+    for link in sorted(links):
+        for recv, val, node in attr_stores(fl.node, link, fl):
+            if not_self(recv):
+                tgt = next((t for t in getattr(node, "targets", []) if isinstance(t, ast.Attribute) and t.attr == link), None)
+                sinks.append((tgt if tgt is not None else recv, val, node))
+    for n in ast.walk(fl.node):
+        # setattr(<new entity>, <name computed from the link table>, value)
+        if isinstance(n, ast.Call) and isinstance(n.func, ast.Name) and n.func.id == "setattr" and len(n.args) == 3 and not isinstance(n.args[1], ast.Constant):
+            alts = fl.alts(n.args[1])
+            from_table = any(isinstance(x, ast.Name) and x.id == "TYPE_MAP" for a in alts for x in ast.walk(a))
+            to_link = any(isinstance(x, ast.Constant) and isinstance(x.value, str) and x.value in links for a in alts for x in ast.walk(a))
+            if (from_table or to_link) and not_self(n.args[0]):
+                sinks.append((n.args[0], n.args[2], n))
+    sinks.sort(key=lambda s: (s[2].lineno, s[2].col_offset))
+    return sinks
+
+
 def rule_copy(ctx) -> RuleResult:
     res = RuleResult(
         "C20.COPY",
@@ -541,24 +565,7 @@ def rule_copy(ctx) -> RuleResult:
             sn = fn.self_name or "self"
             fl = _flow(ctx, fn)
 
-            def not_self(e) -> bool:
-                return not any(is_self(a, sn) for a in fl.origins(e))
-
-            sinks = []
-            for link in sorted(links):
-                for recv, val, node in attr_stores(fl.node, link, fl):
-                    if not_self(recv):
-                        tgt = next((t for t in getattr(node, "targets", []) if isinstance(t, ast.Attribute) and t.attr == link), None)
-                        sinks.append((tgt if tgt is not None else recv, val, node))
-            for n in ast.walk(fl.node):
-                # setattr(<new entity>, <name computed from the link table>, value)
-                if isinstance(n, ast.Call) and isinstance(n.func, ast.Name) and n.func.id == "setattr" and len(n.args) == 3 and not isinstance(n.args[1], ast.Constant):
-                    alts = fl.alts(n.args[1])
-                    from_table = any(isinstance(x, ast.Name) and x.id == "TYPE_MAP" for a in alts for x in ast.walk(a))
-                    to_link = any(isinstance(x, ast.Constant) and isinstance(x.value, str) and x.value in links for a in alts for x in ast.walk(a))
-                    if (from_table or to_link) and not_self(n.args[0]):
-                        sinks.append((n.args[0], n.args[2], n))
-            sinks.sort(key=lambda s: (s[2].lineno, s[2].col_offset))
+            sinks = _link_sinks(fl, sn, links)
             for tgt, val, node in sinks:
                 srcs = fl.origins(val)
                 good = bool(srcs) and all(
@@ -690,6 +697,15 @@ def _stmt_nodes(g):
     return [n for n in g.nodes if n.ast is not None and not isinstance(n.ast, (list, ast.If, ast.For, ast.While, ast.With, ast.Try)) and n.kind not in ("test", "foriter", "fornext")]
 
 
+def _cache_fields(ctx, K, g) -> set:
+    """The cache of a link getter: the fields of self it both fills and returns."""
+    gfl = _flow(ctx, g, K)
+    gsn = g.self_name or "self"
+    returned = {o.attr for r in ast.walk(gfl.node) if isinstance(r, ast.Return) and r.value is not None for o in gfl.origins(r.value)
+                if isinstance(o, ast.Attribute) and is_self(o.value, gsn)}
+    return {f for f in returned if any(any(is_self(a, gsn) for a in gfl.origins(r)) for r, _, _ in attr_stores(gfl.node, f, gfl))}
+
+
 def rule_linkcache(ctx) -> RuleResult:
     res = RuleResult(
         "C20.LINKCACHE",
@@ -697,8 +713,9 @@ def rule_linkcache(ctx) -> RuleResult:
         "every link setter that records the partner in the metadata also re-binds (or resets) the cache field its getter "
         "fills and returns — and where the class' metadata setter resolves the partners through that getter (EM surveys: "
         "the shared dictionary is pushed to getattr(self, <link>)), it does so BEFORE the metadata is handed over on every "
-        "path: otherwise a re-link answers / propagates to the previously cached partner",
-        floor=5,
+        "path: otherwise a re-link answers / propagates to the previously cached partner; and the cache is never bound to the "
+        "new partner on a path that can still end in a refusal (an explicit raise, or a validating metadata write)",
+        floor=10,
     )
     p = ctx.p
     from ..cfg import CFG
@@ -719,11 +736,7 @@ def rule_linkcache(ctx) -> RuleResult:
         sites.append((p.cls(cname), link, pr.getter, pr.setter))
     for K, link, g, s in sites:
         # the cache: a field of self the getter both fills and returns
-        gfl = _flow(ctx, g, K)
-        gsn = g.self_name or "self"
-        returned = {o.attr for r in ast.walk(gfl.node) if isinstance(r, ast.Return) and r.value is not None for o in gfl.origins(r.value)
-                    if isinstance(o, ast.Attribute) and is_self(o.value, gsn)}
-        filled = {f for f in returned if any(any(is_self(a, gsn) for a in gfl.origins(r)) for r, _, _ in attr_stores(gfl.node, f, gfl))}
+        filled = _cache_fields(ctx, K, g)
         if not filled:
             res.notes.append(f"{K.name}.{link}: the getter keeps no cache — nothing to re-bind")
             continue
@@ -739,14 +752,15 @@ def rule_linkcache(ctx) -> RuleResult:
                 return True
             return any(isinstance(c, ast.Call) and "edit_em_metadata" in callee_names(fl, c) for c in ast.walk(a))
 
-        def rebinds(a) -> bool:
+        def rebinds(a, resets=True) -> bool:
+            """the statement binds the cache to the new partner (or, with resets, resets it to None)"""
             for f in filled:
                 for r, v, _ in attr_stores(a, f, fl):
                     if not any(is_self(x, sn) for x in fl.origins(r)):
                         continue
                     vals = fl.origins(v)
                     if (isinstance(v, ast.Name) and v.id == prm) or any(isinstance(o, ast.Name) and o.id == prm for o in vals) \
-                            or (vals and all(isinstance(o, ast.Constant) and o.value is None for o in vals)):
+                            or (resets and vals and all(isinstance(o, ast.Constant) and o.value is None for o in vals)):
                         return True
             return False
 
@@ -767,6 +781,8 @@ def rule_linkcache(ctx) -> RuleResult:
                     ordered = ordered or link in (mfl.consts(n.args[1]) or ())
                 elif isinstance(n, ast.Attribute) and isinstance(n.ctx, ast.Load) and n.attr == link and is_self(n.value, msn):
                     ordered = True
+        # can the metadata setter itself refuse the dictionary (explicit raise in its normalised body)?
+        validating = bool(ms and ms[1] == "prop" and ms[2].setter is not None and any(isinstance(x, ast.Raise) for x in ast.walk(mfl.node)))
         before = reach(cfg, [cfg.entry], avoid=lambda n: n in stores)
         if ordered:
             ok = not any(e in before for e in events)
@@ -785,6 +801,21 @@ def rule_linkcache(ctx) -> RuleResult:
                 res.find(K.name, link, f"partner cache {fld} is not re-bound by the link setter", s.where,
                          f"after re-linking, the getter keeps answering with the previously cached partner while the metadata names the new one "
                          "(copies and the A-B cell ids follow the stale partner until the file is re-opened)")
+        # no re-bind on a path that ends in a refusal: after the cache is bound to the new partner no explicit `raise` of the
+        # (normalised) setter may follow, nor — where the cache need not precede the recording (the metadata setter does not answer
+        # through this link) and the metadata setter validates — the validating metadata write itself
+        binds = [n for n in nodes if rebinds(n.ast, resets=False)]
+        refusals = [n for n in cfg.nodes if n.kind == "raise"]
+        if validating and not ordered:
+            refusals += [n for n in nodes if attr_stores(n.ast, "metadata", fl)]
+        after = reach(cfg, [m for b in binds for m, _ in b.succ]) if binds else set()
+        hit = [r for r in refusals if r in after]
+        ok = not hit
+        res.inst(f"{K.name}.{link} setter: no refusal (raise / validating metadata write) can follow the re-binding of self.{fld}", nontrivial=True, ok=ok)
+        if not ok:
+            res.find(K.name, link, f"partner cache {fld} is re-bound on a path that ends in a refusal", f"{s.module.relpath}:{hit[0].lineno}",
+                     "a link that is REJECTED (the exception is raised after the cache was bound) still changes the partner the getter answers with: "
+                     "the metadata of neither entity records that partner, and later edits are propagated to / copies follow the rejected entity")
     return res
 
 
@@ -946,4 +977,327 @@ def rule_copymeta(ctx) -> RuleResult:
     return res
 
 
-RULES = [rule_keys, rule_prop, rule_copy, rule_store, rule_mangle, rule_linkcache, rule_copymeta]
+def rule_copyorder(ctx) -> RuleResult:
+    res = RuleResult(
+        "C20.COPYORDER",
+        "C20",
+        "in copy / copy_complement of the EM survey classes, nothing is recorded in the shared metadata THROUGH the copied "
+        "partner before the statement that links it (`<new entity>.<link> = <copied partner>`): linking replaces the copied "
+        "partner's dictionary by the new entity's, so an entry written earlier through a metadata-recording setter of the "
+        "partner (or its edit_em_metadata) is lost on both copies",
+        floor=3,
+    )
+    p = ctx.p
+    from ..cfg import CFG
+    from ..kinds import reach
+
+    mod, type_map, omit = em_tables(ctx)
+    links = set(type_map.values())
+    base = p.cls("BaseEMSurvey")
+    fam = [c for c in p.classes if not c.synthetic and base in c.mro]
+    # properties whose setter records into the shared EM metadata (calls edit_em_metadata / assigns self.metadata)
+    recording = set()
+    done = set()
+    for K in fam:
+        for name, pr in K.props.items():
+            st = pr.setter
+            if st is None or st in done or name in links or name == "metadata":
+                continue
+            done.add(st)
+            sfl = _flow(ctx, st, K)
+            ssn = st.self_name or "self"
+            if any(isinstance(c, ast.Call) and "edit_em_metadata" in callee_names(sfl, c) for c in ast.walk(sfl.node)) \
+                    or any(any(is_self(x, ssn) for x in sfl.origins(r)) for r, _, _ in attr_stores(sfl.node, "metadata", sfl)):
+                recording.add(name)
+    if not recording:
+        raise AnalysisError("C20.COPYORDER: no metadata-recording property setter found in the EM survey classes")
+    seen = set()
+    for K in fam:
+        for name in ("copy", "copy_complement"):
+            fn = K.methods.get(name)
+            if fn is None or fn in seen:
+                continue
+            seen.add(fn)
+            sn = fn.self_name or "self"
+            fl = _flow(ctx, fn)
+            cfg = CFG(fl.view_node)
+            nodes = _stmt_nodes(cfg)
+            inside = {id(x): n for n in nodes for x in ast.walk(n.ast)}
+
+            def same_object(a, b) -> bool:
+                if isinstance(a, ast.Name) and isinstance(b, ast.Name) and a.id == b.id:
+                    return True
+                oa, ob = fl.origins(a), fl.origins(b)
+                return any(x is y for x in oa for y in ob if isinstance(x, ast.Call))
+
+            for tgt, val, node in _link_sinks(fl, sn, links):
+                srcs = fl.origins(val)
+                if not (srcs and all(isinstance(o, ast.Call) and isinstance(o.func, ast.Attribute) and o.func.attr in COPY_CALLS for o in srcs)):
+                    res.inst(f"{fn.qualname}:{node.lineno} the linked value is not a copied partner (C20.COPY decides that)")
+                    continue
+                sink_node = inside.get(id(node))
+                if sink_node is None:
+                    continue
+                early = []
+                for n in nodes:
+                    if n is sink_node or sink_node not in reach(cfg, [m for m, _ in n.succ]):
+                        continue
+                    hit = False
+                    for prop in recording:
+                        if any(same_object(r, val) for r, _, _ in attr_stores(n.ast, prop, fl)):
+                            hit = True
+                    for c in ast.walk(n.ast):
+                        if isinstance(c, ast.Call) and isinstance(c.func, ast.Attribute) and "edit_em_metadata" in callee_names(fl, c) and same_object(c.func.value, val):
+                            hit = True
+                    if hit:
+                        early.append(n)
+                ok = not early
+                res.inst(f"{fn.qualname}:{node.lineno} nothing is recorded through the copied partner before it is linked", nontrivial=True, ok=ok)
+                if not ok:
+                    res.find(fn.cls.name, fn.name, "shared metadata is edited through the copied partner before the copies are linked",
+                             f"{fn.module.relpath}:{early[0].lineno}",
+                             "linking pushes the NEW ENTITY's dictionary onto the copied partner: the entry the partner's setter recorded just before "
+                             "(e.g. 'Tx ID property' when the copy starts from the transmitters) is overwritten and missing on both copies")
+    return res
+
+
+def rule_partnercache(ctx) -> RuleResult:
+    res = RuleResult(
+        "C20.PARTNERCACHE",
+        "C20",
+        "whoever hands the shared dictionary to a PARTNER (EM: `<partner>._metadata = d` in BaseEMSurvey.metadata's setter; "
+        "direct current: `<partner>.metadata = d` in the link setters) also re-binds (to self) or resets that partner's own "
+        "link cache — the fields the link getters fill and return — otherwise, after a re-link from this side, the partner "
+        "keeps answering with its PREVIOUS partner while its metadata names this entity",
+        floor=3,
+    )
+    p = ctx.p
+    from ..cfg import CFG
+    from ..kinds import reach
+
+    em_fields, dc_fields = _link_cache_fields(ctx)
+    sites = []
+    pr = p.cls("BaseEMSurvey").props.get("metadata")
+    if pr is None or pr.setter is None:
+        raise AnalysisError("anchor BaseEMSurvey.metadata setter not found")
+    sites.append((p.cls("BaseEMSurvey"), "metadata", pr.setter, "_metadata", em_fields, None))
+    for cname, link in (("PotentialElectrode", "current_electrodes"), ("CurrentElectrode", "potential_electrodes")):
+        K = p.cls(cname)
+        lp = K.props.get(link)
+        if lp is None or lp.getter is None or lp.setter is None or len(lp.setter.params) < 2:
+            raise AnalysisError(f"anchor {cname}.{link} not found")
+        sites.append((K, link, lp.setter, "metadata", dc_fields, lp.setter.params[1]))
+    if not em_fields or not dc_fields:
+        raise AnalysisError("C20.PARTNERCACHE: the link getters keep no cache field")
+    for K, member, st, dict_attr, fields, only in sites:
+        sn = st.self_name or "self"
+        fl = _flow(ctx, st, K)
+        cfg = CFG(fl.view_node)
+        nodes = _stmt_nodes(cfg)
+
+        def same_object(a, b) -> bool:
+            if isinstance(a, ast.Name) and isinstance(b, ast.Name) and a.id == b.id:
+                return True
+            return bool(fl.texts(a) & fl.texts(b))
+
+        def fresh(v) -> bool:
+            vals = fl.origins(v)
+            return bool(vals) and all((isinstance(o, ast.Constant) and o.value is None) or is_self(o, sn) for o in vals)
+
+        def rebinds_cache_of(a, partner) -> bool:
+            for f in fields:
+                if any(same_object(r, partner) and fresh(v) for r, v, _ in attr_stores(a, f, fl)):
+                    return True
+            for c in ast.walk(a):
+                # setattr(<partner>, <name ranging over cache fields>, None | self)
+                if isinstance(c, ast.Call) and isinstance(c.func, ast.Name) and c.func.id == "setattr" and len(c.args) == 3 and not isinstance(c.args[1], ast.Constant):
+                    ks = fl.consts(c.args[1])
+                    if ks and ks <= fields and same_object(c.args[0], partner) and fresh(c.args[2]):
+                        return True
+            return False
+
+        for n in nodes:
+            for r, _v, _ in attr_stores(n.ast, dict_attr, fl):
+                ro = fl.origins(r)
+                if any(is_self(x, sn) for x in ro):
+                    continue
+                if only is not None and not any(isinstance(x, ast.Name) and x.id == only for x in ro + [r]):
+                    continue
+                cs = [m for m in nodes if rebinds_cache_of(m.ast, r)]
+                ok = any(c is n or c in reach(cfg, [x for x, _ in n.succ]) or n in reach(cfg, [x for x, _ in c.succ]) for c in cs)
+                res.inst(f"{K.name}.{member}: the partner that receives the shared dictionary gets its link cache re-bound / reset", nontrivial=True, ok=ok)
+                if not ok:
+                    res.find(K.name, member, "partner's link cache is not re-bound when it receives the shared dictionary", f"{st.module.relpath}:{n.lineno}",
+                             "after re-linking from this side (the partner was linked to another entity before and has resolved it), the partner's getter "
+                             "keeps answering with its previous partner although its metadata now records this entity; copies started from the partner "
+                             "follow the stale link until the file is re-opened")
+    return res
+
+
+def _link_cache_fields(ctx):
+    """(EM cache fields, DC cache fields): what the link getters fill and return."""
+    p = ctx.p
+    mod, type_map, omit = em_tables(ctx)
+    em_fields, dc_fields = set(), set()
+    for K, _typ in em_classes(ctx):
+        for link in type_map.values():
+            m = K.lookup(link)
+            if m and m[1] == "prop" and m[2].getter is not None:
+                em_fields |= _cached(ctx.cache, ("c20.cachefields", m[2].getter), lambda: _cache_fields(ctx, m[2].getter.cls, m[2].getter))
+    for cname, link in (("PotentialElectrode", "current_electrodes"), ("CurrentElectrode", "potential_electrodes")):
+        lp = p.cls(cname).props.get(link)
+        if lp is not None and lp.getter is not None:
+            dc_fields |= _cache_fields(ctx, p.cls(cname), lp.getter)
+    return em_fields, dc_fields
+
+
+def rule_cachebind(ctx) -> RuleResult:
+    res = RuleResult(
+        "C20.CACHEBIND",
+        "C20",
+        "a link cache of self (the fields the link getters fill and return) is bound to an entity SUPPLIED FROM OUTSIDE (a "
+        "parameter of the function) only where the same normalised function also records the link in the metadata "
+        "(edit_em_metadata / `self.metadata = ...`): a cache-only link (e.g. through a constructor keyword) is answered by the "
+        "getter but recorded on neither entity, and the first metadata write through it overwrites the partner's dictionary",
+        floor=5,
+    )
+    p = ctx.p
+    em_fields, dc_fields = _link_cache_fields(ctx)
+    fields = em_fields | dc_fields
+    if not fields:
+        raise AnalysisError("C20.CACHEBIND: the link getters keep no cache field")
+    fam = [c for c in p.classes if not c.synthetic and (p.cls("BaseEMSurvey") in c.mro or p.cls("BaseElectrode") in c.mro)]
+    seen = set()
+    for K in fam:
+        fns = list(K.methods.values()) + [f for pr in K.props.values() for f in (pr.getter, pr.setter, pr.deleter) if f is not None and f.cls is K]
+        for fn in fns:
+            if fn in seen or fn.kind == "staticmethod":
+                continue
+            seen.add(fn)
+            # cheap pre-filter on the source of the function
+            if not any(isinstance(x, ast.Constant) and isinstance(x.value, str) and x.value.lstrip("_") in {f.lstrip("_") for f in fields} for x in ast.walk(fn.node)) \
+                    and not any(isinstance(x, ast.Attribute) and x.attr in fields for x in ast.walk(fn.node)) \
+                    and not any(isinstance(x, ast.Call) and isinstance(x.func, ast.Attribute) and x.func.attr.startswith("_") for x in ast.walk(fn.node)):
+                continue
+            sn = fn.self_name or "self"
+            fl = _flow(ctx, fn, K)
+            own_params = set(fn.params[1:]) | {a.arg for a in fn.node.args.kwonlyargs}
+            bound = []
+            for f in sorted(fields):
+                for r, v, node in attr_stores(fl.node, f, fl):
+                    if any(is_self(x, sn) for x in fl.origins(r)) and any(isinstance(o, ast.Name) and o.id in own_params for o in fl.origins(v) + [v]):
+                        bound.append((f, node))
+            if not bound:
+                continue
+            records = any(isinstance(c, ast.Call) and "edit_em_metadata" in callee_names(fl, c) for c in ast.walk(fl.node)) \
+                or any(any(is_self(x, sn) for x in fl.origins(r)) for r, _, _ in attr_stores(fl.node, "metadata", fl))
+            for f, node in bound:
+                res.inst(f"{fn.qualname}: self.{f} bound to a supplied entity, link recorded in the metadata: {records}", nontrivial=True, ok=records)
+                if not records:
+                    res.find(fn.cls.name, fn.prop or fn.name, f"link cache {f} is bound to a supplied entity without recording the link", f"{fn.module.relpath}:{node.lineno}",
+                             "the getter answers with that entity, but neither entity's metadata records the link; the first metadata access / edit through "
+                             "this entity then pushes its own (default) dictionary onto the partner and overwrites the partner's identifiers")
+    return res
+
+
+def rule_renumber(ctx) -> RuleResult:
+    res = RuleResult(
+        "C20.RENUMBER",
+        "C20",
+        "where copy / copy_complement re-number the shared reference ids of BOTH copies (stores to `<copy>.<id property>.values`, "
+        "id property = a ReferencedData-valued property of the survey classes: ab_cell_id, tx_id_property), every re-numbered "
+        "array is computed through ONE common table: the new values of all of them depend (data flow through the locals) on a "
+        "common read of the ids of one entity — ranking each array by its own ids only lets the two copies disagree",
+        floor=2,
+    )
+    p = ctx.p
+    fam = [c for c in p.classes if not c.synthetic and (p.cls("BaseEMSurvey") in c.mro or p.cls("BaseElectrode") in c.mro)]
+    idprops = set()
+    for K in fam:
+        for name, pr in K.props.items():
+            if pr.getter is not None and pr.getter.node.returns is not None and any(
+                    (isinstance(x, ast.Name) and x.id == "ReferencedData") or (isinstance(x, ast.Attribute) and x.attr == "ReferencedData")
+                    or (isinstance(x, ast.Constant) and isinstance(x.value, str) and "ReferencedData" in x.value) for x in ast.walk(pr.getter.node.returns)):
+                idprops.add(name)
+    if not idprops:
+        raise AnalysisError("C20.RENUMBER: no ReferencedData-valued property found in the survey classes")
+    seen = set()
+    for K in fam:
+        for name in ("copy", "copy_complement"):
+            fn = K.methods.get(name)
+            if fn is None or fn in seen:
+                continue
+            seen.add(fn)
+            fl = _flow(ctx, fn)
+            # stores into an array held in a local (`ids[mask] = rank + 1`) make that local depend on the stored value
+            extra: dict = {}
+            for n in ast.walk(fl.node):
+                if isinstance(n, (ast.Assign, ast.AugAssign)):
+                    for t in (n.targets if isinstance(n, ast.Assign) else [n.target]):
+                        if isinstance(t, ast.Subscript) and isinstance(t.value, ast.Name):
+                            extra.setdefault(t.value.id, []).extend([n.value, t.slice])
+
+            def subst_env(e, env):
+                from ._c20_sem import _rewrite
+
+                return _rewrite(e, lambda x: env.get(x.id) if isinstance(x, ast.Name) and isinstance(x.ctx, ast.Load) and x.id in env else None)
+
+            def deps(e, env, used=frozenset()) -> set:
+                out = set()
+                work = [e]
+                while work:
+                    x = work.pop()
+                    if isinstance(x, ast.Attribute) and x.attr in idprops and isinstance(x.ctx, ast.Load):
+                        # a read of an entity's ids: WHICH entity is part of the read, not a further dependency
+                        out |= {t + "." + x.attr for t in fl.texts(subst_env(x.value, env))}
+                        continue
+                    if isinstance(x, (ast.ListComp, ast.SetComp, ast.GeneratorExp, ast.DictComp)):
+                        # comprehension variables are local to it: they depend on what its own loops range over
+                        own = {t.id for g in x.generators for t in ast.walk(g.target) if isinstance(t, ast.Name)}
+                        for c in ast.iter_child_nodes(x):
+                            out |= deps(c, env, used | own)
+                        continue
+                    if isinstance(x, ast.Name) and isinstance(x.ctx, ast.Load) and x.id not in env and x.id not in used:
+                        for d in fl.defs.get(x.id, []) + extra.get(x.id, []):
+                            out |= deps(d, env, used | {x.id})
+                    work += list(ast.iter_child_nodes(x))
+                return out
+
+            # the re-numbering stores, one instance per element of the literal loops they sit in
+            instances = []
+            def visit(stmts, env):
+                for st in stmts:
+                    if isinstance(st, ast.For) and isinstance(st.target, ast.Name):
+                        els = fl.elements(st.iter)
+                        if els and not any(isinstance(e, ast.Call) and isinstance(e.func, ast.Name) and e.func.id == "__elem__" for e in els) and len(els) <= 4:
+                            for e in els:
+                                visit(st.body, {**env, st.target.id: subst_env(e, env)})
+                            continue
+                    if isinstance(st, ast.Assign):
+                        for t in st.targets:
+                            if isinstance(t, ast.Attribute) and t.attr == "values" and isinstance(t.value, ast.Attribute) and t.value.attr in idprops:
+                                who = "|".join(sorted(fl.texts(subst_env(t.value.value, env))))
+                                instances.append((who, t.value.attr, deps(st.value, env), st))
+                    for fld in ("body", "orelse", "finalbody"):
+                        blk = getattr(st, fld, None)
+                        if isinstance(blk, list) and blk and isinstance(blk[0], ast.stmt):
+                            visit(blk, env)
+                    for h in getattr(st, "handlers", []) or []:
+                        visit(h.body, env)
+
+            visit(fl.node.body, {})
+            for prop in sorted({i[1] for i in instances}):
+                group = [i for i in instances if i[1] == prop]
+                if len({i[0] for i in group}) < 2:
+                    continue  # one entity only: nothing to agree with
+                common = set.intersection(*[i[2] for i in group])
+                ok = bool(common)
+                res.inst(f"{fn.qualname}: the {len(group)} re-numbered {prop} arrays share a table built from {[c[-60:] for c in sorted(common)[:2]]}", nontrivial=True, ok=ok)
+                if not ok:
+                    res.find(fn.cls.name, fn.name, f"the copies' {prop} values are re-numbered without a common table", f"{fn.module.relpath}:{group[0][3].lineno}",
+                             "each copy's ids are ranked among its own ids only: when one copy holds an id the other does not, the same number names "
+                             "different dipoles / loops on the two copies (the copied readings refer to another transmitter than in the original)")
+    return res
+
+
+RULES = [rule_keys, rule_prop, rule_copy, rule_store, rule_mangle, rule_linkcache, rule_copymeta, rule_copyorder, rule_partnercache, rule_cachebind, rule_renumber]
